@@ -363,6 +363,13 @@ def newParametersFromLiteral (o : Oracle) (fuel : Nat) (lit : Literal) : Res Acc
       let p := (gp.orElse fun _ => lit.p).getD []
       newParameters o lit.logN q p lit.ringType lit.xsWeight0 lit.xeStd0
 
+/-- `ckks.NewParametersFromLiteral`: the rlwe checks, then `LogDefaultScale > 128` is rejected
+    (the error text also says "or < 0", which is not checked: negative values are accepted). -/
+def ckksNewFromLiteral (o : Oracle) (fuel : Nat) (lit : Literal) (logDefaultScale : Int) : Res Accepted :=
+  match newParametersFromLiteral o fuel lit with
+  | .ok a => if logDefaultScale > 128 then .err "logDefaultScale" else .ok a
+  | r => r
+
 /-! ## derived quantities -/
 
 def Accepted.maxLevel (a : Accepted) : Int := (a.q.length : Int) - 1
